@@ -414,6 +414,7 @@ func runGob(m *model.Model, s *ob.Set) {
 
 	// ---------------- G3: layout agreement with GobEncode
 	gobLayout(m, s, fn, decoded)
+	runGobBytes(m, s)
 
 	// ---------------- G4: restore precision and mode when the receiver had a precision
 	{
@@ -663,7 +664,7 @@ func gobLayout(m *model.Model, s *ob.Set, dec *ssa.Function, decoded []dstore) {
 						}
 					}
 					if f, ok := fieldOfLoad(inner); ok {
-						encH[f] = hdrLayout{sh, mask, bias, true}
+						encH[f] = hdrLayout{sh, mask & (0xFF >> uint(sh)), bias, true}
 					}
 				}
 				if x.Op == token.OR {
@@ -744,9 +745,18 @@ func gobLayout(m *model.Model, s *ob.Set, dec *ssa.Function, decoded []dstore) {
 				}
 			}
 			if ok1 {
-				decH[d.field] = hdrLayout{shift, mask, bias, true}
+				decH[d.field] = hdrLayout{shift, mask & (0xFF >> uint(shift)), bias, true}
 			}
 			continue
+		}
+		// the top field of the byte needs no mask: b >> k keeps 8-k bits
+		if shr, ok := v.(*ssa.BinOp); ok && shr.Op == token.SHR {
+			if k, ok := model.ConstInt(shr.Y); ok && k > 0 && k < 8 {
+				if bt, ok := shr.X.Type().Underlying().(*types.Basic); ok && bt.Kind() == types.Uint8 {
+					decH[d.field] = hdrLayout{k, 0xFF >> uint(k), bias, true}
+					continue
+				}
+			}
 		}
 		// word fields: Uint32(buf[k:]) / setBytes(buf[k:])
 		if call, ok := v.(*ssa.Call); ok {
@@ -788,7 +798,9 @@ func gobLayout(m *model.Model, s *ob.Set, dec *ssa.Function, decoded []dstore) {
 		s.Check(ok && do == encOff[f], R, c, m.Pos(dec.Pos()), fmt.Sprintf("byte offset %d", encOff[f]), fmt.Sprintf("GobEncode writes %s at byte offset %d, GobDecode reads it at %d (found=%v)", m.FieldN[f], encOff[f], do, ok))
 	}
 	if len(ws) < 3 {
-		s.Bad(R, "(*Decimal).GobDecode/G3:offsets", m.Pos(dec.Pos()), fmt.Sprintf("only %d word fields recognised in the encoder (expected prec, exp, mant)", len(ws)))
+		// the encoder is not written as PutUint32(buf[k:], field) / field.bytes(buf[k:]) with constant
+		// offsets (e.g. it appends): which byte offset each field lands at is then not decided here
+		s.Note(R, "(*Decimal).GobDecode/G3:offsets", m.Pos(dec.Pos()), fmt.Sprintf("only %d word fields recognised in the encoder (prec, exp, mant expected): the encoder writes them in a form this rule does not read offsets from; layout agreement not decided", len(ws)))
 	}
 	_ = strings.TrimSpace
 }
